@@ -361,6 +361,13 @@ def run_check(pid, tier="quick", seed=None, replay=None):
             for s in gi["shards"]:
                 shards.append((res, g, os.path.join(res["_dir"], s)))
     mism_total, mism_cases = 0, []
+    # shared definition files written by a harness (defs_*.v) are compiled first, in name order
+    for res in results:
+        for dv in sorted(glob.glob(os.path.join(res["_dir"], "defs_*.v"))):
+            rc, out = sh(["coqc", "-Q", TH, "CN", "-w", "-all", os.path.basename(dv)], cwd=res["_dir"], timeout=1800)
+            log.append("$ coqc %s rc=%d\n%s" % (os.path.basename(dv), rc, out[-3000:]))
+            if rc != 0:
+                problems.append(dict(layer="L2-eval", what="definitions file %s of the harness does not compile" % os.path.basename(dv), detail=out[-1500:]))
     if shards:
         with ThreadPoolExecutor(max_workers=int(os.environ.get("VERIF_JOBS", "12"))) as ex:
             reps = list(ex.map(lambda x: coq_eval_shard(x[2]), shards))
